@@ -60,7 +60,7 @@ RESERVED = [K("k3::S-Repeat-reserved"), K("k3::S-Define-reserved"), K("k3::S-Def
             K("k3::S-Repeat-tuple-reserved"), K("k3::S-Define-global-reserved"),
             K("k3::S-Define-global-tuple-reserved")]
 S_TALES = [K("k3::S-Pipe3"), K("k3::S-Pipe-prefix-middle"), K("k3::S-Same-not-twice"), K("k3::S-Same-exists-twice"), K("k3::S-Same-string-twice"), K("k3::S-Not"), K("k3::S-Exists"), K("k3::S-LambdaScope")]
-S_INTERP = [K("tales.py::PythonExpr.translate"), K("k3::S-Interp-braces"), K("k3::S-PI-interp"), K("k3::S-Cdata-entity"), K("k3::S-Cdata-twice"), K("k3::S-Interp-text"), K("k3::S-Interp-off"), K("k3::S-Interp-lines"),
+S_INTERP = [K("tales.py::PythonExpr.translate"), K("k3::S-Interp-braces"), K("k3::S-PI-interp"), K("k3::S-Cdata-entity"), K("k3::S-Cdata-twice"), K("k3::S-Interp-text"), K("k3::S-Interp-implicit-mixed"), K("k3::S-Interp-off"), K("k3::S-Interp-lines"),
             K("k3::S-Interp-percent"), K("k3::S-Cdata-then-text")]
 S_I18N = [K("k3::S-Translate-name"), K("k3::S-Translate-name-condition"), K("k3::S-Translate-id"), K("k3::S-Translate-empty"),
           K("k3::S-I18nDomain"), K("k3::S-I18nContext"), K("k3::S-I18nTarget"), K("k3::S-I18nTarget-name"), K("k3::S-I18nContext-name"), K("k3::S-I18nContext-target-domain"), K("k3::S-I18nAttributes"), K("k3::S-I18nAttributes-two"), K("k3::S-I18nAttributes-implicit-interp"),
